@@ -11,6 +11,7 @@ package api
 //@   requires ctx != nil
 //@   modifies ctx
 //@   ensures respstatus(ctx) == statusCode && jstr(respbody(ctx), "message") == msg && respnbody(ctx) == old(respnbody(ctx)) + 1
+//@   ensures[ctype] respctype(ctx) == "application/json"
 
 //@ func api.(*otpGenerateReq).validate(t) (err)
 //@   requires t != nil
